@@ -60,9 +60,12 @@ structure TrackSt (α : Type) where
   probe : Bool
   cmdPos : Cmd α (Vec3 α)
   cmdStr : Cmd α α
+  /-- pending `set_volume` command (any track, spatial or not) -/
+  cmdVol : Cmd α α := none
 
 /-- mirrors: Track::read_commands -/
 def TrackSt.readCommands (t : TrackSt α) : TrackSt α :=
+  let t := { t with volume := readCmd t.volume t.cmdVol, cmdVol := none }
   match t.spatial with
   | some sd =>
     { t with spatial := some { sd with position := readCmd sd.position t.cmdPos,
